@@ -3,13 +3,50 @@ C07 — a locally re-bound standard-library name is never linted as the library'
 
 Every library lint begins with the same gate: look up the reference at the first token of the use
 and stop if it resolves to a script variable.  The models are structured so that a use reaches the
-library only through that flag; "resolved" agreeing with Lua's scoping rules is C01's resolution
-statement (pending there).  Proved here: the gate itself, for every lint that has a model.
+library only through that flag.  That the flag is exactly "Lua binds the identifier to a local" is
+proved for every chunk (`C07_gate_inside`, `C07_gate_outside`, corollaries of C01's resolution theorem
+over the machine of `Scope/Core.lean`); the gate itself is proved for every lint that has a model.
 -/
 import Selene.Scope.Lints
 import Selene.Std.Access
+import Selene.Props.C01
 namespace Selene.Props.C07
 open Selene.Scope Selene.Std Selene.Lua
+
+/-- **C07 (the gate is closed inside the binding's scope).** For every chunk: if Lua's scoping rules
+bind an identifier occurrence in an expression position to a local, parameter, loop variable, local
+function or `self` declared at `d`, the machine's reference for that token is resolved to `d` — so every
+lint that first asks "does the use's first identifier resolve to a script variable" stops there, whatever
+the library says about the name. -/
+theorem C07_gate_inside (b : Block) (oc : Spec.Occ) (hoc : oc ∈ (Spec.resolve b).occs)
+    (hc : SpecProof.counted oc = true) (d : Nat) (hb : oc.binding.map (·.1) = some d) :
+    ∃ r ∈ (Core.analyse b).refs, r.tok = oc.tok ∧ r.decl = false ∧ r.write = false ∧ r.resolved = some (d, false) := by
+  have hmem : (oc.tok, some d) ∈ @Core.St.answers Core.NameFilter.all (Core.analyse b) :=
+    (@C01.C01_resolution_mem Core.NameFilter.all b oc.tok (some d)).mpr ⟨oc, hoc, hc, rfl, rfl, hb⟩
+  obtain ⟨r, hr, _, _, hd, hw, htok, hlb⟩ := (@CoreProof.mem_answers Core.NameFilter.all _ oc.tok (some d)).mp hmem
+  refine ⟨r, hr, htok, hd, hw, ?_⟩
+  cases hres : r.resolved with
+  | none => simp [Core.localBinding, hres] at hlb
+  | some v =>
+    obtain ⟨d', g⟩ := v
+    cases g with
+    | true => simp [Core.localBinding, hres] at hlb
+    | false =>
+      have : d' = d := by simpa [Core.localBinding, hres] using hlb
+      rw [this]
+
+/-- **C07 (the gate is open outside).** For every chunk: an occurrence Lua binds to nothing, of a name no
+statement of the file assigns as a global, has an unresolved reference — the lints look the name up in
+the library exactly as they would without any binding of that name elsewhere in the file. -/
+theorem C07_gate_outside (b : Block) (oc : Spec.Occ) (hoc : oc ∈ (Spec.resolve b).occs)
+    (hc : SpecProof.counted oc = true) (hb : oc.binding = none)
+    (hna : ∀ oc' ∈ (Spec.resolve b).occs, SpecProof.assignsGlobal oc' = true → oc'.name ≠ oc.name) :
+    ∃ r ∈ (Core.analyse b).refs, r.tok = oc.tok ∧ r.decl = false ∧ r.write = false ∧ r.resolved = none := by
+  have h := C01.C01_complete (fun _ => false) b oc hoc hc hb rfl hna
+  simp only [Core.undefinedReports, List.mem_map, List.mem_filter, Bool.and_eq_true, Bool.not_eq_true',
+    Option.isNone_iff_eq_none] at h
+  obtain ⟨r, ⟨hr, ⟨⟨hd, hw⟩, hres⟩, _⟩, ht⟩ := h
+  exact ⟨r, hr, ht, hd, hw, hres⟩
 
 /-- **C07 (inside, must_use).** A call statement whose called name resolves to a script variable
 never yields a `must_use` diagnostic, whatever the library says about that name path. -/
